@@ -98,6 +98,9 @@ func genC20Event(r *rand.Rand, unixSafe bool) *c20Event {
 		d = time.Duration(r.Int63n(1e6))
 	case 2:
 		d = time.Duration(r.Int63n(int64(30 * 24 * time.Hour)))
+	case 3:
+		// the clock stepped back while the request was served: the end lies before the start
+		d = -choose(r, []time.Duration{1500 * time.Millisecond, 500 * time.Millisecond, 400 * time.Microsecond, 1, time.Duration(r.Int63n(int64(time.Hour)))})
 	default:
 		d = time.Duration(r.Int63n(int64(10 * time.Second)))
 	}
@@ -111,7 +114,7 @@ func genC20Event(r *rand.Rand, unixSafe bool) *c20Event {
 	e.Status = 100 + r.Intn(900)
 	switch r.Intn(6) {
 	case 0:
-		e.Size = choose(r, []int64{0, 1, 9, 10, 99, 100, math.MaxInt32, math.MaxInt32 + 1, math.MaxInt64, math.MaxInt64 - 1, 1e18, 999999999999999999})
+		e.Size = choose(r, []int64{0, 1, 9, 10, 99, 100, math.MaxInt32, math.MaxInt32 + 1, math.MaxInt64, math.MaxInt64 - 1, 1e18, 999999999999999999, -1, math.MinInt64, math.MinInt64 + 1})
 	case 1:
 		e.Size = r.Int63()
 	default:
@@ -199,11 +202,11 @@ func c20Render(tok string, e *c20Event, ev *logger.Event) []string {
 	case "$response_status":
 		return []string{strconv.Itoa(e.Status)}
 	case "$response_time_ms":
-		return []string{fmt.Sprintf("%d.%03d", d/time.Second, d%time.Second/time.Millisecond)}
+		return []string{c20Seconds(d, time.Millisecond, 3)}
 	case "$response_time_us":
-		return []string{fmt.Sprintf("%d.%06d", d/time.Second, d%time.Second/time.Microsecond)}
+		return []string{c20Seconds(d, time.Microsecond, 6)}
 	case "$response_time_ns":
-		return []string{fmt.Sprintf("%d.%09d", d/time.Second, d%time.Second)}
+		return []string{c20Seconds(d, time.Nanosecond, 9)}
 	case "$time_rfc3339":
 		return []string{t.Format("2006-01-02T15:04:05Z")}
 	case "$time_rfc3339_ms":
@@ -253,6 +256,15 @@ func c20Match(line string, alts [][]string) bool {
 	return false
 }
 
+// c20Seconds: a duration as seconds with a truncated fraction; a negative one carries one sign, in front.
+func c20Seconds(d, unit time.Duration, digits int) string {
+	sign := ""
+	if d < 0 {
+		sign, d = "-", -d
+	}
+	return fmt.Sprintf("%s%d.%0*d", sign, d/time.Second, digits, d%time.Second/unit)
+}
+
 func genC20Format(r *rand.Rand, unixSafe bool) []string {
 	var toks []string
 	if r.Intn(20) == 0 {
@@ -265,7 +277,7 @@ func genC20Format(r *rand.Rand, unixSafe bool) []string {
 		var f string
 		for {
 			f = choose(r, logger.Fields)
-			if !unixSafe && strings.HasPrefix(f, "$time_unix") {
+			if !unixSafe && f == "$time_unix_ns" { // Time.UnixNano is undefined outside 1678..2262; UnixMilli and UnixMicro are not
 				continue
 			}
 			break
